@@ -227,9 +227,12 @@ def _p_fs_only_changed(interp, args, kwargs, env):
 
     g = models.fs_state(interp)
     o = getattr(interp, "old_ghost", None) or {}
-    p = _path_term(interp, args[0])
-    return sym.sbool(z3.And(g["fs_exists"] == z3.Store(o["fs_exists"], p, z3.Select(g["fs_exists"], p)),
-                            g["fs_content"] == z3.Store(o["fs_content"], p, z3.Select(g["fs_content"], p))))
+    ex, co = o["fs_exists"], o["fs_content"]
+    for a in args:  # every path other than the given ones
+        p = _path_term(interp, a)
+        ex = z3.Store(ex, p, z3.Select(g["fs_exists"], p))
+        co = z3.Store(co, p, z3.Select(g["fs_content"], p))
+    return sym.sbool(z3.And(g["fs_exists"] == ex, g["fs_content"] == co))
 
 
 def _p_json_map(interp, args, kwargs, env):
@@ -367,7 +370,7 @@ def fs_unchanged():
     raise NotImplementedError("fs_unchanged is symbolic-only (the bounded tier compares directory snapshots)")
 
 
-def fs_only_changed(p):
+def fs_only_changed(*p):
     raise NotImplementedError("fs_only_changed is symbolic-only")
 
 
